@@ -874,6 +874,15 @@ func c04ClientTakesTheOffer(w *World, r *Report) {
 		return
 	}
 	secure := ncc.Params[secureP]
+	// the field of the connection object that keeps the secure parameter (composite literal or assignment)
+	var secureF *types.Var
+	allInstrs(ncc, func(in ssa.Instruction) {
+		if st, ok := in.(*ssa.Store); ok && st.Val == ssa.Value(secure) {
+			if fa, ok := st.Addr.(*ssa.FieldAddr); ok {
+				secureF = fieldVarOf(fa)
+			}
+		}
+	})
 	var up *ssa.Call
 	var flagArg ssa.Value
 	for _, c := range callsIn(ncc) {
@@ -896,6 +905,10 @@ func c04ClientTakesTheOffer(w *World, r *Report) {
 					bools = append(bools, a)
 				}
 			}
+		}
+		// the secure flag may travel in the connection object instead (`cc.secure`): then the one boolean is the decision
+		if !passesSecure && len(bools) == 1 && secureF != nil {
+			passesSecure = true
 		}
 		if !passesSecure || len(bools) != 1 {
 			continue
@@ -947,6 +960,54 @@ func c04ClientTakesTheOffer(w *World, r *Report) {
 		if isOffer(fv) {
 			npaths++ // the decision IS the offer
 			return
+		}
+		// the decision made by a predicate helper (`cc.wantsStartTls()`): it may answer false only where the carrier
+		// is secure or the offer is absent
+		if hc, ok := fv.(*ssa.Call); ok {
+			if h := hc.Call.StaticCallee(); h != nil && inModule(h) && len(h.Blocks) > 0 && secureF != nil {
+				helperOk, sawOffer := true, false
+				okh := enumPaths(h, nil, nil, nil, func(e2 pathExit) {
+					ret, isRet := e2.Last.(*ssa.Return)
+					if !isRet || len(ret.Results) != 1 {
+						return
+					}
+					rv := e2.State.Resolve(ret.Results[0])
+					if isOffer(rv) {
+						sawOffer = true
+						return
+					}
+					if b, isC := constBool(rv); isC && b {
+						return
+					}
+					for v, t := range e2.State.Facts {
+						if t && isLoadOfField(v, secureF) {
+							return // secure carrier: no StartTLS needed
+						}
+						if !t && (isOffer(v) || isOffer(e2.State.Resolve(v))) {
+							sawOffer = true
+							return // no offer
+						}
+						if t && (isOffer(v) || isOffer(e2.State.Resolve(v))) {
+							sawOffer = true
+						}
+					}
+					if b, isC := constBool(rv); isC && !b {
+						helperOk = false
+						return
+					}
+					if t, known := e2.State.Truth(rv); known && t {
+						return
+					}
+					helperOk = false
+				})
+				if okh && sawOffer {
+					npaths++
+					if !helperOk {
+						bad = fmt.Sprintf("%s: %s, which makes the StartTLS decision, can answer false although the carrier is not secure and the server offers StartTLS: the client turns the offer down for a local reason and establishes a clear-text session", w.Pos(h.Pos()), ssaFuncKey(h))
+					}
+					return
+				}
+			}
 		}
 		offered := false
 		for v, t := range e.State.Facts {
